@@ -356,6 +356,19 @@ func c15Run(in c15In) (out c15Out) {
 			// notify + re-open: a re-created file is only looked at on the next write event (the select
 			// takes eventWrite and eventDelete in either order); scope note of the property, not a defect.
 			// The writer then appends one more byte (part of the recorded history).
+			// TailFilesToChan with a real batch size: lines wait in the partial batch until a line arrives at least 250 ms
+			// after the previous flush (and the consumer's lag delays that flush): the writer appends one more line
+			if in.Via == "batcher" && in.Batch > 1 && nudges < 6 && time.Since(lastNudge) > 350*time.Millisecond {
+				R.mu.Lock()
+				R.log = append(R.log, c15Ent{0, "7e0a"})
+				R.written += 2
+				R.mu.Unlock()
+				nudges++
+				lastNudge = time.Now()
+				if err := appendFile([]byte{0x7e, 0x0a}); err != nil {
+					return false
+				}
+			}
 			if !in.Poll && in.Reopen && removes > 0 && nudges < 12 && time.Since(lastNudge) > 120*time.Millisecond {
 				R.mu.Lock()
 				R.log = append(R.log, c15Ent{0, "7e"})
@@ -702,9 +715,8 @@ func c15CaseOf(orig, in c15In, out, raw c15Out) Case {
 	if !in.Poll && in.Reopen && inDomain {
 		tags = append(tags, "kf:C15-notify-stale-delete")
 	}
-	// domain of finding C15-notify-symlink: inotify mode and the followed name is a symbolic link
-	if !in.Poll && isSymName(in.PathForm) {
-		tags = append(tags, "kf:C15-notify-symlink")
+	if isSymName(in.PathForm) { // (inotify mode: the input class of the fixed finding C15-notify-symlink)
+		tags = append(tags, "symlinked-name")
 	}
 	for _, op := range in.Script {
 		if op.Op == "pause" {
@@ -987,11 +999,6 @@ func c15Plan(r *Rng, n int, notify bool) []c15In {
 			// symlinked names meet this branch in every run
 			in.PathForm = []string{"symfile", "symfar", "symchain"}[(i/len(classes)+i)%3]
 		}
-		if isSymName(in.PathForm) && !in.Poll && (i/len(classes))%4 != 0 {
-			// notify cannot follow a symlinked name at all (finding C15-notify-symlink, every such case stalls for the
-			// full watchdog time): keep a few per run, give the others the next plain form
-			in.PathForm = pathForms[(i+3)%7]
-		}
 		if isSymName(in.PathForm) && r.Bool() {
 			in.RemoveKind = "link"
 		}
@@ -1054,7 +1061,7 @@ func main() {
 			"(classes: in-place appends with seeded pauses 0..2.5 ms and occasional wait-for-drain; burst of back-to-back appends; removal after drain at the end (plain follow: EOF expected); " +
 			"rotation = remove after drain, re-create, append (polling: first append shorter than the removed file and drained before the next); file missing at start with re-open; " +
 			"every class x spelling of the followed path {clean absolute, dir/./f, dir//f, dir/sub/../f, relative to the working directory, ./relative, through a symlinked directory, the name itself a symbolic link to the file in the same directory / in another directory / through two links} (the writer uses the real name; " +
-			"for a symlinked name removal = the name stops resolving to the file: the target is removed and later re-created, or the link is removed and later re-created pointing to a new file - both are generated; notify + symlinked name is the domain of finding C15-notify-symlink and only those of the first class cycle are kept; plain polling classes get a symlinked name in three of four cycles); " +
+			"for a symlinked name removal = the name stops resolving to the file: the target is removed and later re-created, or the link is removed and later re-created pointing to a new file - both are generated, for notify and poll; plain polling classes get a symlinked name in three of four cycles); " +
 			"1..5 operations on OTHER entries of the directory (old-followed.log, xfollowed.log, followed.log.1, followed.log~, followed, sibdir/followed.log, directory followed.log.d: create+remove, write, rename, directory with a file) inserted at random positions of every script; " +
 			"plain follow: after the removal the path is re-created at once or after 1..50 ms, empty or with content (the stream has to end, nothing of the new file is delivered; notify and poll); " +
 			"batcher-burst: TailFilesToChan with batch size 64, [1-3 lines, 300-400 ms, burst of 2-6 lines] x 2-3, the consumer holds every batch and re-reads all of them at the end; " +
